@@ -53,10 +53,10 @@ Proof.
   induction v as [z | r | c | s | s | l IH | kvs IH | k] using val_ind2; intros inner Hw; try reflexivity; try discriminate.
   - cbn [wr] in Hw. cbn [pure]. rewrite forallb_forall in *. rewrite Forall_forall in IH.
     intros x Hx. apply (IH x Hx true). apply Hw. exact Hx.
-  - cbn [wr] in Hw. apply andb_true_iff in Hw as [Hw _]. apply andb_true_iff in Hw as [_ Hw].
+  - cbn [wr] in Hw. apply andb_true_iff in Hw as [Hw _].
     cbn [pure]. rewrite forallb_forall in *. rewrite Forall_forall in IH.
     intros [k x] Hin. specialize (Hw (k, x) Hin). cbn beta iota in Hw.
-    apply andb_true_iff in Hw as [Hw Hwx]. apply andb_true_iff in Hw as [Hw _]. apply andb_true_iff in Hw as [_ Hwk].
+    apply andb_true_iff in Hw as [Hw Hwx]. apply andb_true_iff in Hw as [_ Hwk].
     destruct (IH (k, x) Hin) as [Hk Hx]. cbn [fst snd] in Hk, Hx.
     rewrite (Hk false Hwk), (Hx false Hwx). reflexivity.
 Qed.
@@ -95,6 +95,8 @@ Qed.
 Definition atom (v : val) : bool :=
   match v with VInt _ | VReal _ | VChar _ | VStr _ | VSym _ => true | _ => false end.
 
+Definition nonspace (t : list Z) : Prop := Forall (fun c => is_space E c = false) t.
+
 Lemma digits_no_dot : forall ds, forallb ascii_digit ds = true -> existsb (Z.eqb 46) ds = false.
 Proof.
   induction ds as [| c ds IH]; intros H; [reflexivity |].
@@ -102,26 +104,146 @@ Proof.
   cbn [existsb]. rewrite (IH H), orb_false_r. apply Z.eqb_neq. lia.
 Qed.
 
-Theorem form_format : env_ok E -> forall x, atom x = true -> wr E false x = true ->
-  exists t, format E x = Some t /\ form E x t = Some x.
+Lemma digits_nonspace : forall ds, forallb ascii_digit ds = true -> nonspace ds.
 Proof.
-  intros HE x Ha Hw. destruct x as [z | r | c | s | s | l | kvs | k]; try discriminate.
+  induction ds as [| c ds IH]; intros H; [constructor |].
+  cbn [forallb] in H. apply andb_true_iff in H as [Hc H].
+  constructor; [apply digit_not_space; exact Hc | apply IH; exact H].
+Qed.
+
+Lemma us_digits_all : forall ds acc b, forallb ascii_digit ds = true -> (ds <> [] \/ b = true) ->
+  us_digits ds acc b = Some (fold_left dstep ds acc).
+Proof.
+  induction ds as [| c ds IH]; intros acc b Hd Hb.
+  - destruct Hb as [Hb | ->]; [congruence | reflexivity].
+  - cbn [forallb] in Hd. apply andb_true_iff in Hd as [Hc Hd].
+    cbn [us_digits fold_left]. rewrite Hc. apply IH; [exact Hd | right; reflexivity].
+Qed.
+
+Lemma lstrip_head : forall t, match t with c :: _ => is_space E c = false | [] => True end -> lstrip_text E t = t.
+Proof. intros [| c t] H; [reflexivity |]. cbn [lstrip_text]. rewrite H. reflexivity. Qed.
+
+Lemma nonspace_head : forall t, nonspace t -> match t with c :: _ => is_space E c = false | [] => True end.
+Proof. intros [| c t] H; [exact I |]. inversion H. assumption. Qed.
+
+Lemma lstrip_blanks : forall n t, lstrip_text E (repeat 32 n ++ t) = lstrip_text E t.
+Proof. induction n as [| n IH]; intros t; [reflexivity |]. cbn [repeat app lstrip_text]. change (is_space E 32) with true. cbv iota. apply IH. Qed.
+
+Lemma rev_repeat' : forall (x : Z) n, rev (repeat x n) = repeat x n.
+Proof.
+  intros x n. induction n as [| n IH]; [reflexivity |].
+  cbn [repeat rev]. rewrite IH. clear IH. induction n as [| n IH]; [reflexivity |].
+  cbn [repeat app]. rewrite IH. reflexivity.
+Qed.
+
+Lemma py_strip_pad : forall t l r, nonspace t -> py_strip E (repeat 32 l ++ t ++ repeat 32 r) = t.
+Proof.
+  intros t l r Ht. unfold py_strip. rewrite lstrip_blanks.
+  assert (H1 : lstrip_text E (t ++ repeat 32 r) = t ++ repeat 32 r \/ t = []).
+  { destruct t as [| c t']; [right; reflexivity | left]. apply lstrip_head. cbn [app]. inversion Ht. assumption. }
+  destruct H1 as [-> | ->].
+  - rewrite rev_app_distr, rev_repeat', lstrip_blanks.
+    rewrite lstrip_head by (apply nonspace_head; apply Forall_rev; exact Ht). apply rev_involutive.
+  - cbn [app]. rewrite <- (app_nil_r (repeat 32 r)), lstrip_blanks. reflexivity.
+Qed.
+
+Lemma py_strip_id : forall t, nonspace t -> py_strip E t = t.
+Proof. intros t Ht. pose proof (py_strip_pad t 0 0 Ht) as H. cbn [repeat app] in H. rewrite app_nil_r in H. exact H. Qed.
+
+Lemma write_int_nonspace : forall z, nonspace (write_int z).
+Proof.
+  intros z. destruct (write_int_spec z) as (sign & ds & -> & _ & Hd & [(-> & _) | (-> & _)]).
+  - apply digits_nonspace. exact Hd.
+  - constructor; [reflexivity | apply digits_nonspace; exact Hd].
+Qed.
+
+(* int() of the decimal text, with any blanks around it *)
+Lemma py_int_padded : forall z l r, py_int E (repeat 32 l ++ write_int z ++ repeat 32 r) = Some z.
+Proof.
+  intros z l r. unfold py_int. rewrite (py_strip_pad _ l r (write_int_nonspace z)).
+  destruct (write_int_spec z) as (sign & ds & Hw & Hne & Hd & Hs). rewrite Hw.
+  destruct ds as [| c ds']; [congruence |].
+  assert (Hc : 48 <= c <= 57).
+  { cbn [forallb] in Hd. apply andb_true_iff in Hd as [Hc _]. apply ascii_digit_range. exact Hc. }
+  destruct Hs as [(-> & _ & Hv) | (-> & _ & Hv)]; cbn [app].
+  - replace (c =? 45) with false by (symmetry; apply Z.eqb_neq; lia).
+    replace (c =? 43) with false by (symmetry; apply Z.eqb_neq; lia).
+    rewrite (us_digits_all (c :: ds') 0 false Hd) by (left; congruence). f_equal. exact Hv.
+  - change (45 =? 45) with true. cbv iota.
+    rewrite (us_digits_all (c :: ds') 0 false Hd) by (left; congruence). cbn [option_map]. f_equal.
+    unfold dval in Hv. lia.
+Qed.
+
+Lemma write_int_no_dot_padded : forall z l r, existsb (Z.eqb 46) (repeat 32 l ++ write_int z ++ repeat 32 r) = false.
+Proof.
+  intros z l r. rewrite !existsb_app.
+  assert (Hb : forall n, existsb (Z.eqb 46) (repeat 32 n) = false) by (induction n as [| n IH]; [reflexivity | cbn; exact IH]).
+  rewrite !Hb, orb_false_r. cbn [orb].
+  destruct (write_int_spec z) as (sign & ds & -> & _ & Hd & [(-> & _) | (-> & _)]);
+    rewrite existsb_app, (digits_no_dot ds Hd); reflexivity.
+Qed.
+
+Lemma write_int_nonempty : forall z, write_int z <> [].
+Proof.
+  intros z. destruct (write_int_spec z) as (sign & ds & -> & Hne & _ & _).
+  destruct sign; [cbn; exact Hne | discriminate].
+Qed.
+
+(* float(text) ignores blanks around the text (exercised by the harness on the same floats as env_ok) *)
+Definition float_ignores_blanks : Prop :=
+  forall f l r, finite f = true -> parse_real E (repeat 32 l ++ fmt_real E f ++ repeat 32 r) = Some f.
+
+Definition num_ok (x : val) : bool := match x with VInt _ => true | VReal r => finite r | _ => false end.
+Definition atom_ok (x : val) : bool := match x with VReal r => finite r | _ => atom x end.
+
+Lemma form_num_padded : env_ok E -> float_ignores_blanks -> forall x l r t, num_ok x = true ->
+  format E x = Some t -> form E x (repeat 32 l ++ t ++ repeat 32 r) = FVal x.
+Proof.
+  intros HE HB x l r t Hx Ht. destruct x as [z | f | c | s | s | ls | kvs | k]; try discriminate.
+  - cbn [format] in Ht. inversion Ht. subst t. cbn [form].
+    rewrite write_int_no_dot_padded, py_int_padded. cbn [andb].
+    destruct (repeat 32 l ++ write_int z ++ repeat 32 r) eqn:Hz; [| reflexivity].
+    apply app_eq_nil in Hz as [_ Hz]. apply app_eq_nil in Hz as [Hz _]. exfalso. exact (write_int_nonempty z Hz).
+  - cbn [format] in Ht. inversion Ht. subst t. cbn [form num_ok] in *.
+    rewrite (HB f l r Hx).
+    destruct (repeat 32 l ++ fmt_real E f ++ repeat 32 r) eqn:Hz; [| reflexivity].
+    apply app_eq_nil in Hz as [_ Hz]. apply app_eq_nil in Hz as [Hz _].
+    pose proof (fmt_shape E HE f Hx) as Hsh. rewrite Hz in Hsh. discriminate.
+Qed.
+
+(* x:$$x is x for EVERY integer, every finite real, every character, every string, every symbol *)
+Theorem form_format : env_ok E -> forall x, atom_ok x = true ->
+  exists t, format E x = Some t /\ form E x t = FVal x.
+Proof.
+  intros HE x Ha. destruct x as [z | r | c | s | s | l | kvs | k]; try discriminate.
   - exists (write_int z). split; [reflexivity |]. cbn [form].
-    destruct (write_int_spec z) as (sign & ds & Hws & Hne & Hd & Hs).
-    assert (Hdot : existsb (Z.eqb 46) (write_int z) = false).
-    { rewrite Hws, existsb_app, (digits_no_dot ds Hd), orb_false_r.
-      destruct Hs as [(-> & _) | (-> & _)]; reflexivity. }
-    assert (Hnil : write_int z <> []).
-    { rewrite Hws. destruct sign; [cbn; exact Hne | discriminate]. }
-    rewrite Hdot, parse_int_write_int.
-    destruct (write_int z); [congruence | reflexivity].
-  - cbn [wr] in Hw. exists (fmt_real E r). split; [reflexivity |]. cbn [form].
-    rewrite (parse_fmt E HE r Hw).
+    pose proof (write_int_no_dot_padded z 0 0) as Hdot. pose proof (py_int_padded z 0 0) as Hp.
+    cbn [repeat app] in Hdot, Hp. rewrite app_nil_r in Hdot, Hp. rewrite Hdot, Hp. cbn [andb].
+    pose proof (write_int_nonempty z). destruct (write_int z); [congruence | reflexivity].
+  - cbn [atom_ok] in Ha. exists (fmt_real E r). split; [reflexivity |]. cbn [form].
+    rewrite (parse_fmt E HE r Ha).
     destruct (fmt_real E r) eqn:Hf; [| reflexivity].
-    pose proof (fmt_shape E HE r Hw) as Hsh. rewrite Hf in Hsh. discriminate.
+    pose proof (fmt_shape E HE r Ha) as Hsh. rewrite Hf in Hsh. discriminate.
   - exists [c]. split; reflexivity.
   - exists s. split; reflexivity.
   - exists (58 :: s). split; reflexivity.
+Qed.
+
+(* ... and for numbers also through Format2 with any integer width: x:$(w$x) is x *)
+Theorem form_format2_num : env_ok E -> float_ignores_blanks -> forall w x, num_ok x = true ->
+  exists t, format2 E (VInt w) x = Some t /\ form E x t = FVal x.
+Proof.
+  intros HE HB w x Hx.
+  assert (Hf : exists t, format E x = Some t) by (destruct x; try discriminate; eexists; reflexivity).
+  destruct Hf as (t & Ht). cbn [format2].
+  destruct (w =? 0).
+  - exists t. split; [destruct x; try discriminate; exact Ht |].
+    pose proof (form_num_padded HE HB x 0 0 t Hx Ht) as H. cbn [repeat app] in H. rewrite app_nil_r in H. exact H.
+  - rewrite Ht. eexists. split; [reflexivity |].
+    destruct (0 <=? w).
+    + apply (form_num_padded HE HB x 0 _ t Hx Ht).
+    + pose proof (form_num_padded HE HB x (Z.to_nat (Z.abs w) - length t) 0 t Hx Ht) as H.
+      cbn [repeat] in H. rewrite app_nil_r in H. exact H.
 Qed.
 
 End Norm.
